@@ -14,10 +14,10 @@ import (
 )
 
 type Case struct {
-	Combo  refmodel.Combo    `json:"combo"`
-	Blocks [][]refmodel.Op   `json:"blocks"`
-	Cut    *uint             `json:"cut,omitempty"`     // set in violation artefacts: the failing cut (bit i = boundary after block i)
-	Reload *bool             `json:"reload,omitempty"`  // failing variant
+	Combo  refmodel.Combo  `json:"combo"`
+	Blocks [][]refmodel.Op `json:"blocks"`
+	Cut    *uint           `json:"cut,omitempty"`    // set in violation artefacts: the failing cut (bit i = boundary after block i)
+	Reload *bool           `json:"reload,omitempty"` // failing variant
 }
 
 var envPool = sync.Pool{New: func() any { return storedrv.NewEnv() }}
